@@ -197,8 +197,18 @@ class ConfigSim:
             elif op.get('file_data') is not None:
                 import tomli_w
 
-                with open(fpath, 'wb') as f:
-                    tomli_w.dump(op['file_data'], f)
+                # an unchanged file is left untouched (same inode, same mtime), so that loading
+                # "the same unchanged configuration file" twice really happens
+                blob = tomli_w.dumps(op['file_data']).encode()
+                old = None
+                if os.path.exists(fpath):
+                    with open(fpath, 'rb') as f:
+                        old = f.read()
+                if old != blob:
+                    with open(fpath, 'wb') as f:
+                        f.write(blob)
+                else:
+                    self.bump('config_file_reused_unchanged')
                 file_data = op['file_data']
             # else: the file is deliberately missing
             file_arg = fpath
@@ -384,7 +394,7 @@ def gen_op(rng: random.Random, sim: ConfigSim, cfg):
             if rng.random() < 0.4:
                 data = copy.deepcopy(rng.choice(VALID_KW))
                 data.pop('performance_model', None)
-                op.update(file=f'cfg{rng.randint(0, 3)}.toml', file_data=data)
+                op.update(file='cfg-%s.toml' % short_hash(data)[:6], file_data=data)
         elif r < cfg['p_valid'] + 0.25:
             op.update(expect='invalid', kind='invalid_value', kwargs=copy.deepcopy(rng.choice(INVALID_VALUE_KW)))
             if rng.random() < 0.3:
